@@ -902,6 +902,27 @@ fn query(pool: &[Option<Obj>], toks: &[&str]) -> String {
             Some(Obj::B(b)) => format!("repr={} str={}", hex(&format!("{:?}", b)), hex(&format!("{:?}", b))),
             None => "skip".to_string(),
         },
+        "rename" => match reg(toks[1]) {
+            Some(Obj::E(e)) => {
+                let n: usize = toks[2].parse().unwrap();
+                let m: BTreeMap<String, String> = (0..n).map(|k| (unhex(toks[3 + 2 * k]), unhex(toks[4 + 2 * k]))).collect();
+                let r = Obj::E(e.rename_literals(&m));
+                format!("ren={} inputs={} rtv={}", show_struct(&r), names(inputs_of(&r).iter()), bits(&truth_vector(&r)))
+            }
+            _ => "skip".to_string(),
+        },
+        "p2v" => {
+            let p: Vec<bool> = if toks[2] == "." { vec![] } else { toks[2].chars().map(|c| c == '1').collect() };
+            let show = |v: Option<BTreeMap<String, bool>>| match v {
+                None => "none".to_string(),
+                Some(m) => if m.is_empty() { "-".to_string() } else { m.iter().map(|(k, b)| format!("{}:{}", if k.is_empty() { "~".to_string() } else { hex(k) }, *b as u8)).collect::<Vec<_>>().join(",") },
+            };
+            match reg(toks[1]) {
+                Some(Obj::E(e)) => format!("p2v={}", show(e.boolean_point_to_valuation(p))),
+                Some(Obj::T(t)) => format!("p2v={}", show(t.boolean_point_to_valuation(p))),
+                _ => "skip".to_string(),
+            }
+        }
         "row" => match reg(toks[1]) {
             Some(Obj::T(t)) => format!("row={}", bits(&t.row(toks[2].parse().unwrap()))),
             _ => "skip".to_string(),
